@@ -56,6 +56,13 @@ def run(ctx):
     zero = [e for e in st if entries(e.value) == [T.ZERO] * 4]
     full = [e for e in st if e not in zero]
     if len(zero) != 1 or len(full) != 1:
+        # the empty-neighbourhood branch stores a variable carried over from an earlier iteration of the grid loops
+        stale = [e for e in st if any(x[0] == "lc" for x in T.subterms(e.value)) and entries(e.value) is None]
+        rest = [e for e in st if e not in stale]
+        if len(stale) == 1 and len(rest) == 1 and entries(rest[0].value) is not None:
+            ctx.violation("STATE", f"{ST} / STATE / every grid cell's tensor is computed from that grid cell alone", ctx.where(f, stale[0].node),
+                          f"under {[T.show(T.alpha(c))[:60] for c in stale[0].conds()]} the tensor stored for the grid cell is a variable carried over from the "
+                          f"previous grid cell ({T.show(T.alpha(stale[0].value))[:80]}): a grid cell with no cell centre in reach repeats its predecessor's tensor instead of zeros")
         raise AnalysisError("stress_tensor: cannot tell the zero branch from the full branch")
     e = full[0]
     row, col = ("bv", e.loops()[0][1]), ("bv", e.loops()[1][1])
